@@ -493,7 +493,57 @@ class C20(core.Check):
             self.count('opcode-level %s k<=%d%s (oracle only)' % ('/'.join(prog), bound,
                                                                  '' if n < cap else ' (capped)'), n)
         self.granularity(False)
-        return out + list(found.values())
+        return out + list(found.values()) + self.dead_worker_histories()
+
+    def dead_worker_histories(self):
+        """the end of a worker's life: its callback raises, BackgroundTask.run re-raises and the thread ends while
+        Monitor.thread still refers to it.  Controller calls issued after that (real threads, no scheduler: the worker
+        is dead, nothing interleaves): graceful / stop+start must leave exactly one live worker, stop none."""
+        import threading
+        import time
+        from cherrypy.process import plugins, wspbus
+        out = []
+        for prog in (['graceful'], ['stop', 'start'], ['graceful', 'graceful'], ['stop']):
+            bus = wspbus.Bus()
+            calls = []
+
+            def cb():
+                calls.append(time.time())
+                if len(calls) == 1:
+                    raise RuntimeError('monitor callback fails once')
+            mon = plugins.Monitor(bus, cb, frequency=0.01, name='c20-dying')
+            hook, threading.excepthook = threading.excepthook, (lambda a: None)      # the dying worker is expected
+            try:
+                mon.start()
+                first = mon.thread
+                first.join(5)
+                died = not first.is_alive() and len(calls) == 1
+                for op in prog:
+                    getattr(mon, op)()
+                want = 0 if prog[-1] == 'stop' else 1
+                t0 = time.time()
+                while want and len(calls) < 2 and time.time() - t0 < 3:
+                    time.sleep(0.01)
+                live = [t for t in threading.enumerate() if isinstance(t, plugins.BackgroundTask) and t.is_alive()
+                        and t.name == 'c20-dying']
+                obs = {'worker_died': died, 'live_workers': len(live), 'callback_calls': len(calls),
+                       'monitor_thread_alive': bool(mon.thread is not None and mon.thread.is_alive())}
+                self.count('dead-worker history: start, callback raises, %s' % ', '.join(prog))
+                if died and (len(live) != want or (want and len(calls) < 2)):
+                    out.append(core.Violation(
+                        'dead-worker:%s' % ('no-worker' if len(live) < want else 'extra-worker'),
+                        'start; the callback raised and the worker ended; %s: %d live worker(s), the property demands %d '
+                        '(callback invoked %d times)' % ('; '.join(prog), len(live), want, len(calls)),
+                        case={'sys': 'dead-worker', 'prog': prog}, observed=obs))
+            finally:
+                try:
+                    mon.stop()
+                except Exception:
+                    pass
+                threading.excepthook = hook
+            if out:
+                break
+        return out
 
 
 CHECK = C20
